@@ -125,5 +125,8 @@ func main() {
 		appdoc.CmdDoc,
 	}
 
-	cliApp.Run(os.Args)
+	if err := cliApp.Run(os.Args); err != nil {
+		fmt.Fprintln(os.Stderr, err)
+		os.Exit(1)
+	}
 }
